@@ -113,4 +113,11 @@ theorem Un.connect_disconnect (s : Store K E) (h : Mirror s) (u v : K) (e : E)
 
 example : vals (unAdj (Un.run [Op.connect 0 1 1, .connect 2 0 2] : Store Nat Nat) 0) 0 = [] := by decide
 
+/-- "isolate removes exactly the incident edges", applied twice: a second `isolate` of the same node finds nothing
+    left to remove and changes no list of any node -/
+theorem Di.isolate_idem (s : Store K E) (h : Mirror s) (u : K) :
+    ∀ w, ((Di.isolate (Di.isolate s u).1 u).1.get w).out = ((Di.isolate s u).1.get w).out ∧
+         ((Di.isolate (Di.isolate s u).1 u).1.get w).inn = ((Di.isolate s u).1.get w).inn :=
+  Di.isolate_idem' s h u
+
 end G
